@@ -56,4 +56,6 @@ def panel (f : Feat) : Panel :=
     prog := prog f,
     ctrl := .uc (Uc.por WIDTH HEIGHT 1 7 false) }
 
+attribute [driver_simp] W sendResolution init updateAchromatic updateChromatic updateFrame displayFrame prog
+
 end EpdVerif.Drivers.Epd1in54c
